@@ -6,10 +6,16 @@ META = dict(
     property_id='C08',
     design_ref='DESIGN.md section 4, C08',
     technique='Coq proof (limit / victim-rule / statistics invariants over the line-by-line model of mem_cache shared with C07; '
-              'Tiling / NoFreeBuddies invariants of a model of buddy_allocator) + extracted-model correspondence on cache operation '
-              'sequences (with the real private recency list and timeout index read out) and on malloc/free sequences of the real '
-              'allocator + history-based property oracle on the real caches + fill/empty cycles with used-memory accounting',
-    level_text=('Theorems in coq/C08/Props.v. Cache (model C07.Defs of src/cache_storage.cpp: delete_node, fetch, store, rise, remove, clear, '
+              'Tiling / NoFreeBuddies invariants of a model of buddy_allocator; conservation of allocator blocks for a resource model of the '
+              'process_shared cache running OVER the allocator model, with every allocation of store a failure point) + extracted-model '
+              'correspondence (cache operation sequences with the real private recency list and timeout index read out; malloc/free sequences of '
+              'the real allocator; store under a second tenant that leaves every possible budget - the model must predict the allocation at which '
+              'the store gives up and the page structure of the segment; failure injection at the k-th operator new on the thread_shared cache) + '
+              'history-based property oracle on the real caches + conservation oracle on the real segment (bytes in in-use pages, '
+              'total_free_memory, max_free_chunk, free pages, no-two-free-buddies, refill probe of 40 % of the segment after clear()) + '
+              'lexical tie of the allocate/construct/deallocate-on-throw shape of private/hash_map.h and of the bad_alloc handlers of store',
+    level_text=('Theorems in coq/C08/Props.v. Guards generated from the source (cxx2v) and linked: check_limits loop condition, expired-first test, '
+                'pressure test, malloc rounding, buddy address / bound, merge test. Cache (model C07.Defs of src/cache_storage.cpp: delete_node, fetch, store, rise, remove, clear, '
                 'check_limits): for ALL histories (any operations, clock schedule, allocation faults, memory-pressure answers) a cache with '
                 'limit n>0 never holds more than n entries and never reports more than n keys; check_limits is the loop '
                 '`while must_evict: delete first_victim`, a victim always exists, it removes exactly max(0,size-limit+1) entries when memory '
@@ -17,20 +23,233 @@ META = dict(
                 'that deadline has passed, otherwise the entry whose last store-or-hit is older than that of every other entry (stated against '
                 'operation numbers of the history); stats() always equals (number of entries, sum of trigger-set sizes) and the whole answer '
                 'sequence equals that of the abstract LRU specification. Buddy allocator (model C08.Defs of private/buddy_allocator.h: '
-                'constructor, malloc, page_alloc, free, free_page, get_buddy): see docs/C08.md for the list of invariants proved. '
-                'Tie: the extracted model and the real code (src/cache_storage.cpp compiled into the harness, thread_shared and process_shared '
-                '512 KiB..4 MiB, interposed time()) run the same operation sequences - limits 1..8 with key alphabets larger than the limit, '
-                'exhaustive short sequences, long random ones - and must agree on every fetch result, stats(), the private recency list after '
-                'every operation and the timeout index; the extracted allocator model and the real buddy_allocator run the same malloc/free '
-                'sequences and must agree on every returned offset, total_free_memory, max_free_chunk, the free lists and the page headers.'),
-    level_note=('Trusted: Coq kernel; ExtrOcamlBasic extraction; the hand-written models (no function of the anchored code is in the loop-free '
-                'integer fragment cxx2v translates - the allocator constants are compared at run time instead); hash_map modelled as a finite '
-                'map; std::multimap/list/set semantics; locks not modelled (C09); allocation failures / not_enough_memory() of the shared-memory '
-                'variant are oracle arguments of the model (covered by the theorems; exercised on the real code by the pressure sequences and '
-                'fill/empty cycles, which are judged by the property oracle only); shmem_allocator mutex and mmap are not modelled.'),
+                'constructor, malloc, page_alloc, free, free_page, get_buddy): invariants, disjointness, free-all-restores (docs/C08.md). '
+                'Conservation (resource model C08.ResDefs: every block the containers of mem_cache<process_settings> obtain is a b_malloc on the '
+                'allocator model, tagged with its owner; value copy, int_key, the temporary pair, bucket vectors, index node, key copy INSIDE the '
+                'node, lru/timeout/list nodes may each fail - when the allocator model says so, with arbitrary blocks of other tenants, or by an '
+                'injected fault list; the exception paths of basic_map::allocate and mem_cache::store are spelled out): after ANY history the in-use '
+                'pages of the segment are exactly the recorded blocks plus those of the other tenants, each once (no orphan, no dangling record); '
+                'after clear() only the other tenants remain; no temporary of a store is recorded between operations, whatever failed; a cache that has the segment for itself leaves after clear() the page headers and free '
+                'lists of the freshly constructed allocator; without the catch block of basic_map::allocate a concrete history orphans the node. '
+                'Tie: extracted models vs the real code on the same cases (cache sequences; allocator sequences with offsets, free lists, headers; '
+                'budget sweeps and failure injection: stats after the store and the exact page structure of the real segment); the statement shapes '
+                'of basic_map::allocate/destroy/erase/clear and the two handlers of store are read off the current source on every run and '
+                'Link.v proves they are what the model assumes.'),
+    level_note=('Trusted: Coq kernel; ExtrOcamlBasic extraction; tools/cxx2v.py + clang for the guards (coq/gen/Gen_C08_guards.v: the while condition of '
+                'check_limits, the expired-first test, not_enough_memory, size_limit, the malloc size formula, get_buddy, the merge test of free_page, '
+                'page_alloc refusal and split offset, total_free_at are cut out of the current source and proved equal to the model leafs in '
+                'LinkGuards.v); the hand-written models for everything else (the allocator constants and the node sizes are compared at run time); hash_map modelled '
+                'as a finite map in the cache model and as tagged blocks in the resource model; std::multimap/list/set semantics; locks not modelled '
+                '(C09); the resource model records the blocks of an entry as a set (the order in which delete_node / nl_clear release several blocks is not '
+                'modelled: exact page-structure correspondence uses limit 0 and states where the set of live blocks determines the page structure; '
+                'limits 1..8 are compared on stats and bytes in in-use pages) and omits fetch (frees one list node, allocates one of the same size); the lexical shape extractor of checks/C08.py (fixed table of statement texts); '
+                'shmem_allocator mutex and mmap are not modelled.'),
 )
 
-GEN = {}
+
+# --------------------------------------------------------------------------------------------
+# tie of the allocate / construct / deallocate-on-throw shape of private/hash_map.h to the resource model
+# (coq/C08/ResDefs.v: rstmt, allocate_protected, destroy_releases, count_destroy; lemmas in coq/C08/Link.v)
+# --------------------------------------------------------------------------------------------
+import os
+import re
+
+_SHAPES = [
+    ('container_allocal;', 'SDeclAlloc'),
+    ('iteratorp=al.allocate(1);', 'SAllocate'),
+    ('try{new(p)container(v);}', 'STryConstructCopy'),
+    ('try{new(p)container();}', 'STryConstructDefault'),
+    ('catch(...){al.deallocate(p,1);throw;}', 'SCatchDeallocRethrow'),
+    ('catch(...){al.deallocate(p);throw;}', 'SCatchDeallocRethrow'),
+    ('returnp;', 'SReturnP'),
+    ('p->~container();', 'SDestruct'),
+    ('al.deallocate(p,1);', 'SDeallocate'),
+    ('destroy(p);', 'SCallDestroy'),
+    ('destroy(del);', 'SCallDestroy'),
+]
+
+
+def _body_after(src, sig_re):
+    """text between the braces of the first function whose signature matches sig_re (brace matching), or None"""
+    m = re.search(sig_re, src)
+    if not m:
+        return None
+    i = src.find('{', m.end() - 1)
+    if i < 0:
+        return None
+    depth = 0
+    for j in range(i, len(src)):
+        if src[j] == '{':
+            depth += 1
+        elif src[j] == '}':
+            depth -= 1
+            if depth == 0:
+                return src[i + 1:j]
+    return None
+
+
+def _classify_body(body):
+    if body is None:
+        return ['SOther']
+    t = re.sub(r'\s+', '', body)
+    out = []
+    i = 0
+    while i < len(t):
+        for pat, name in _SHAPES:
+            if t.startswith(pat, i):
+                out.append(name)
+                i += len(pat)
+                break
+        else:
+            # an unknown statement: up to the next ; or brace
+            j = i
+            while j < len(t) and t[j] not in ';{}':
+                j += 1
+            if out[-1:] != ['SOther'] or 'destroy' in t[i:j + 1] or 'alloc' in t[i:j + 1]:
+                out.append('SOther')
+            i = j + 1
+    return out
+
+
+def gen_shape():
+    """write coq/gen/Gen_C08_hashmap.v from the CURRENT private/hash_map.h: the statement shapes of basic_map::allocate(v),
+    allocate(), destroy(p) and the destroy calls of erase / clear.  Lexical (comments stripped, white space removed, a fixed table of
+    statement texts; everything else is SOther), deliberately rigid: a rewrite of these five functions breaks coq/C08/Link.v."""
+    try:
+        src = open(os.path.join(vlib.REPO, 'private', 'hash_map.h')).read()
+    except OSError:
+        src = ''
+    src = re.sub(r'/\*.*?\*/', '', src, flags=re.S)
+    src = re.sub(r'//[^\n]*', '', src)
+    m = re.search(r'class\s+basic_map\b', src)
+    cls = src[m.start():] if m else ''
+    parts = {
+        'g_allocate_copy': _body_after(cls, r'iterator\s+allocate\s*\(\s*value_type\s+const\s*&\s*v\s*\)\s*\{'),
+        'g_allocate_default': _body_after(cls, r'iterator\s+allocate\s*\(\s*\)\s*\{'),
+        'g_destroy': _body_after(cls, r'void\s+destroy\s*\(\s*iterator\s+p\s*\)\s*\{'),
+        'g_erase': _body_after(cls, r'iterator\s+erase\s*\(\s*iterator\s+p\s*\)\s*\{'),
+        'g_clear': _body_after(cls, r'void\s+clear\s*\(\s*\)\s*\{'),
+    }
+    try:
+        cs = open(os.path.join(vlib.REPO, 'src', 'cache_storage.cpp')).read()
+    except OSError:
+        cs = ''
+    cs = re.sub(r'/\*.*?\*/', '', cs, flags=re.S)
+    cs = re.sub(r'//[^\n]*', '', cs)
+    st = re.sub(r'\s+', '', _body_after(cs, r'virtual\s+void\s+store\s*\(') or '')
+    nc = re.sub(r'\s+', '', _body_after(cs, r'void\s+nl_clear\s*\(\s*\)\s*\{') or '')
+    handlers = re.findall(r'catch\(([^)]*)\)\{([^{}]*)\}', st)
+    flags = {
+        # exactly two handlers in store: the value copy failed -> remove(key); return;   anything else -> nl_clear();
+        'g_store_value_copy_handler_removes': len(handlers) == 2 and handlers[0][0].startswith('std::bad_allocconst&') and handlers[0][1] == 'remove(key);return;',
+        'g_store_handler_clears': len(handlers) == 2 and handlers[1][0].startswith('std::bad_allocconst&') and handlers[1][1] == 'nl_clear();',
+        # every container is cleared and both counters are reset (the position of the two rehash(limit) calls is left open: see finding 1 in docs/C08.md)
+        'g_nl_clear_clears_every_container': (set(x for x in nc.split(';') if x) - {'primary.rehash(limit)', 'triggers.rehash(limit)'}
+                                              == {'timeout.clear()', 'lru.clear()', 'primary.clear()', 'triggers.clear()', 'size=0', 'triggers_count=0'}),
+    }
+    txt = ('(* generated by checks/C08.py (gen_shape) from private/hash_map.h of the tree under test -- do not edit *)\n'
+           'From Coq Require Import List.\nImport ListNotations.\nFrom CppcmsV Require Import C08.ResDefs.\n')
+    for name in ('g_allocate_copy', 'g_allocate_default', 'g_destroy', 'g_erase', 'g_clear'):
+        txt += 'Definition %s : list rstmt := [%s].\n' % (name, '; '.join(_classify_body(parts[name])))
+    txt += '(* src/cache_storage.cpp: the two catch blocks of mem_cache::store and the statement list of nl_clear, compared as text *)\n'
+    for name in sorted(flags):
+        txt += 'Definition %s : bool := %s.\n' % (name, 'true' if flags[name] else 'false')
+    out = os.path.join(vlib.COQ, 'gen', 'Gen_C08_hashmap.v')
+    os.makedirs(os.path.dirname(out), exist_ok=True)
+    with vlib.Lock('gen-Gen_C08_hashmap'):
+        vlib.write_if_changed(out, txt)
+    return parts
+
+
+def _guards_tu():
+    """mechanism T for the guards of the anchored code: whole functions of the anchored files are outside the fragment of tools/cxx2v.py
+    (pointers, loops, containers) but their integer GUARDS and size formulas are not.  They are cut out of the CURRENT source as text
+    and wrapped into tiny functions (regenerated on every import): the while condition of check_limits (not_enough_memory() -> nem), the
+    expired-first test, not_enough_memory() and size_limit() of process_settings, the size formula of buddy_allocator::malloc, the
+    buddy address computation and bound test of get_buddy, the merge test of free_page, the refusal test of page_alloc and total_free_at; from private/hash_map.h the
+    growth test of rehash_if_needed and next_size().
+    If a piece is not found in the expected form it is left out and the translator / Link.v report a broken tie."""
+    d = os.path.join(vlib.WORK, 'C08')
+    os.makedirs(d, exist_ok=True)
+    out = os.path.join(d, 'C08_guards_tu.cpp')
+
+    def rd(*parts):
+        try:
+            t = open(os.path.join(vlib.REPO, *parts)).read()
+        except OSError:
+            return ''
+        t = re.sub(r'/\*.*?\*/', '', t, flags=re.S)
+        return re.sub(r'//[^\n]*', '', t)
+    cs, ba = rd('src', 'cache_storage.cpp'), rd('private', 'buddy_allocator.h')
+    txt = ('// generated by checks/C08.py (_guards_tu) from src/cache_storage.cpp and private/buddy_allocator.h -- do not edit\n'
+           '#include <stddef.h>\nstatic_assert(sizeof(size_t)==8 && sizeof(long)==8 && sizeof(void*)==8,"LP64");\n'
+           'static const size_t alignment = 16;   // buddy_allocator::alignment on LP64, compared with the real value by `bud consts`\n'
+           'static const int page_in_use = 0x100; // compared by `bud consts`\n')
+    body = _body_after(cs, r'void\s+check_limits\s*\(\s*\)\s*\{') or ''
+    m = re.search(r'while\s*\((.*?)\)\s*\{', body, re.S)
+    if m and m.group(1).count('not_enough_memory()') == 1:
+        txt += 'bool c08_must_evict(size_t size,unsigned limit,bool nem)\n{\n\treturn %s;\n}\n' % m.group(1).replace('not_enough_memory()', 'nem')
+    m = re.search(r'if\s*\(\s*!timeout\.empty\(\)\s*&&\s*timeout\.begin\(\)->first\s*([<>=!]+)\s*now\s*\)', body)
+    if m:
+        txt += 'bool c08_expired_first(bool nonempty,long first,long now)\n{\n\treturn nonempty && first%snow;\n}\n' % m.group(1)
+    ps = _body_after(cs, r'struct\s+process_settings\s*\{') or ''
+    m = re.search(r'static\s+bool\s+not_enough_memory\s*\(\s*\)\s*\{\s*return\s+(.*?);\s*\}', ps, re.S)
+    if m and m.group(1).count('process_memory->max_available()') == 1 and m.group(1).count('process_memory->size()') == 1:
+        txt += ('bool c08_not_enough_memory(size_t max_available,size_t size)\n{\n\treturn %s;\n}\n'
+                % m.group(1).replace('process_memory->max_available()', 'max_available').replace('process_memory->size()', 'size'))
+    m = re.search(r'static\s+size_t\s+size_limit\s*\(\s*\)\s*\{\s*return\s+(.*?);\s*\}', ps, re.S)
+    if m and m.group(1).count('process_memory->size()') == 1:
+        txt += 'size_t c08_size_limit(size_t size)\n{\n\treturn %s;\n}\n' % m.group(1).replace('process_memory->size()', 'size')
+    mb = _body_after(ba, r'void\s*\*\s*malloc\s*\(\s*size_t\s+required_size\s*\)\s*\{') or ''
+    m = re.search(r'size_t\s+n\s*=\s*(.*?);', mb, re.S)
+    if m:
+        txt += 'size_t c08_malloc_size(size_t required_size)\n{\n\treturn %s;\n}\n' % m.group(1)
+    gb = _body_after(ba, r'page\s*\*\s*get_buddy\s*\(\s*page\s*\*\s*p\s*\)\s*\{') or ''
+    m1 = re.search(r'size_t\s+p_len\s*=\s*(.*?);', gb, re.S)
+    m2 = re.search(r'size_t\s+b_ptr\s*=\s*(.*?);', gb, re.S)
+    m3 = re.search(r'if\s*\((.*?)\)\s*return\s+0\s*;', gb, re.S)
+    if m1 and m2 and m3 and m1.group(1).count('p->bits') == 1:
+        txt += ('long c08_get_buddy(size_t p_ptr,int bits,size_t memory_size_)\n{\n\tsize_t p_len = %s;\n\tsize_t b_ptr = %s;\n\tif(%s)\n\t\treturn -1;\n'
+                '\treturn (long)b_ptr;\n}\n' % (m1.group(1).replace('p->bits', 'bits').replace('size_t(1)', '(size_t)1'), m2.group(1), m3.group(1)))
+    fp = _body_after(ba, r'void\s+free_page\s*\(\s*page\s*\*\s*p\s*\)\s*\{') or ''
+    m = re.search(r'if\s*\(\s*(buddy\s*!=\s*0\s*&&\s*buddy->bits\s*[<>=!]+\s*bits[^)]*)\)\s*\{', fp)
+    if m:
+        txt += ('bool c08_merge(bool has_buddy,int buddy_bits,int bits)\n{\n\treturn %s;\n}\n'
+                % re.sub(r'buddy\s*!=\s*0', 'has_buddy', m.group(1)).replace('buddy->bits', 'buddy_bits'))
+    m = re.search(r'p->bits\s*=\s*(\(bits\+1\)\s*\+\s*page_in_use)\s*;', fp)
+    if m:
+        txt += 'int c08_merged_bits(int bits)\n{\n\treturn %s;\n}\n' % m.group(1)
+    pa = _body_after(ba, r'page\s*\*\s*page_alloc\s*\(\s*int\s+bit_size\s*\)\s*\{') or ''
+    m = re.search(r'if\s*\((bit_size\s*[<>=!]+\s*max_bit_size_)\)\s*\{', pa)
+    if m:
+        txt += 'bool c08_too_big(int bit_size,int max_bit_size_)\n{\n\treturn %s;\n}\n' % m.group(1)
+    m = re.search(r'unused\s*=\s*reinterpret_cast<page\s*\*>\(reinterpret_cast<char\s*\*>\(to_split\)\s*\+\s*(\(size_t\(1\)<<bit_size\))\)', pa)
+    if m:
+        txt += 'size_t c08_split_offset(size_t to_split,int bit_size)\n{\n\treturn to_split + %s;\n}\n' % m.group(1).replace('size_t(1)', '(size_t)1')
+    ta = _body_after(ba, r'size_t\s+total_free_at\s*\(\s*int\s+bits\s*\)\s*\{') or ''
+    m = re.search(r'return\s+(count\s*\*.*?);', ta, re.S)
+    if m:
+        txt += 'size_t c08_total_free_at(size_t count,int bits)\n{\n\treturn %s;\n}\n' % m.group(1).replace('size_t(1)', '(size_t)1')
+    hm = rd('private', 'hash_map.h')
+    m = re.search(r'size_t\s+next_size\s*\(\s*\)\s*\{\s*return\s+(.*?);\s*\}', hm, re.S)
+    if m:
+        txt += 'size_t c08_next_size(size_t size_)\n{\n\treturn %s;\n}\n' % m.group(1)
+    rn = _body_after(hm, r'void\s+rehash_if_needed\s*\(\s*\)\s*\{') or ''
+    m = re.search(r'if\s*\((size_\s*\+\s*1\s*[<>=!]+\s*table_size)\)\s*\{', rn)
+    if m:
+        txt += 'bool c08_rehash_needed(size_t size_,size_t table_size)\n{\n\treturn %s;\n}\n' % m.group(1)
+    vlib.write_if_changed(out, txt)
+    return out
+
+
+GEN = {
+    'Gen_C08_guards': dict(src=_guards_tu(), incs=[], functions=[
+        ('c08_must_evict', 'g_c08_must_evict'), ('c08_expired_first', 'g_c08_expired_first'),
+        ('c08_not_enough_memory', 'g_c08_not_enough_memory'), ('c08_size_limit', 'g_c08_size_limit'),
+        ('c08_malloc_size', 'g_c08_malloc_size'), ('c08_get_buddy', 'g_c08_get_buddy'), ('c08_merge', 'g_c08_merge'),
+        ('c08_merged_bits', 'g_c08_merged_bits'), ('c08_too_big', 'g_c08_too_big'), ('c08_split_offset', 'g_c08_split_offset'),
+        ('c08_total_free_at', 'g_c08_total_free_at'), ('c08_next_size', 'g_c08_next_size'), ('c08_rehash_needed', 'g_c08_rehash_needed')], consts=[('alignment', 'g_c08_alignment'), ('page_in_use', 'g_c08_page_in_use')]),
+}
 
 T0 = 1000
 INFTY = 0x7FFFFFFFFFFFFFFF - 3600 * 24
@@ -175,10 +394,12 @@ def store_successors(h, now, stamp, k, vt, ts, d, g, pressure):
         c.insert(k, vt, ts, d, g, stamp)
         out.append(c)
     if pressure:
-        a = h.copy()                                   # value copy failed: nothing happened
-        b = base.copy()                                # dropped after the old entry was deleted
+        # value copy failed (the catch block of mem_cache::store removes the key, /repo 6978548) or the store was dropped
+        # after the old entry was deleted: the key is absent, nothing else changed.  "Nothing happened" (the superseded
+        # entry still cached) is NOT an allowed outcome.
+        b = base.copy()
         c = Hist(h.limit); c.gen = h.gen; c.gen_known = False   # bad_alloc inside: everything cleared, counter may have moved
-        out += [a, b, c]
+        out += [b, c]
     return out
 
 
@@ -497,6 +718,190 @@ def oracle_bud(case, out):
     return None
 
 
+# --------------------------------------------------------------------------------------------
+# allocator exhaustion inside insertions: the conservation clause on the real cache + real buddy allocator
+# ("memory of removed entries is released; a process-shared cache can be filled, emptied and refilled indefinitely")
+# --------------------------------------------------------------------------------------------
+def oracle_exh(case, out):
+    c = case.split()
+    if c[1:] == ['consts']:
+        return None if out == '15 232 136 80 24 32 48 16' else ('layout-constants-changed', 'sizes of the cache object / index nodes differ from coq/C08/ResDefs.v: ' + out[:100])
+    kib, limit, pct, steps = int(c[1]), int(c[2]), int(c[4]), c[5:]
+    if out.startswith('<') or 'exception' in out or '<crash' in out:
+        return ('cache-crash', 'harness/child died or threw: ' + out[:300])
+    toks = out.split(' ')
+    if len(toks) != len(steps) or 'BAD-STEP' in toks:
+        return ('bad-output', 'answer has %d tokens for %d steps: %s' % (len(toks), len(steps), out[:200]))
+    seg = kib * 1024
+    base = None
+    hogged = False
+    cleared = True          # nothing was stored since construction / the last clear()
+    clears = 2              # consecutive clear() calls (the second one moves the hash vectors of a limited cache back to small pages)
+    last_empty = 'construction'
+    for i, (st, a) in enumerate(zip(steps, toks)):
+        where = 'step %d (%s) answered %s' % (i, st, a[:160])
+        f = st.split(':')
+        if st == 'M':
+            m = a.split(':')
+            try:
+                ks, tr = [int(x) for x in m[1].split('/')]
+                used, total, mx, pages, flags = int(m[2]), int(m[3]), int(m[4]), m[5], m[6]
+            except (ValueError, IndexError):
+                return ('bad-output', 'malformed measure token ' + a[:200])
+            if 'tiling' in flags:
+                return ('allocator-headers-broken', 'the page headers of the shared segment no longer tile it: ' + where)
+            if 'lists' in flags:
+                return ('free-lists-differ-from-free-pages', 'the free lists of the shared segment are not the free pages found by the header walk: ' + where)
+            if 'buddies' in flags:
+                return ('free-buddies-coexist', 'two free buddy pages of the same order are not merged in the shared segment: ' + where)
+            if 'index-' in flags:
+                return ('index-inconsistent', 'the four indexes / counters of the real cache object disagree: ' + where)
+            if limit > 0 and ks > limit:
+                return ('limit-exceeded', 'cache reports %d keys with limit %d: %s' % (ks, limit, where))
+            if base is None:
+                base = (used, total, mx, pages)
+                if i != 0:
+                    return ('bad-output', 'first step must be M')
+                continue
+            if ks == 0 and tr == 0 and not hogged and cleared:
+                if used != base[0]:
+                    return ('memory-not-released', 'the cache is empty after %s (no other tenant in the segment) but %d bytes of the shared segment are in '
+                            'in-use pages, %d were after construction: an allocator block was orphaned (%s; fresh free pages %s)'
+                            % (last_empty, used, base[0], where, base[3][:200]))
+                # with a limit nl_clear() allocates the new hash vector of `primary` (limit ranges) while the trigger index still occupies
+                # the segment: the vector may legitimately land in another page than at construction, so only the byte count is exact
+                if limit == 0 and (mx != base[2] or total != base[1]):
+                    return ('memory-not-released', 'the cache is empty after %s but total_free_memory/max_free_chunk are %d/%d, %d/%d after construction (%s)'
+                            % (last_empty, total, mx, base[1], base[2], where))
+                if limit == 0 and pages != base[3]:
+                    return ('memory-not-released', 'the cache is empty after %s but the free pages of the segment differ from those after construction: %s (fresh: %s)'
+                            % (last_empty, where, base[3][:300]))
+        elif st[0] == 'H':
+            hogged = True
+        elif st == 'U':
+            hogged = False
+        elif st[0] == 'S':
+            if a.startswith('s!'):
+                return (('clear-in-handler-throws-limit-ge-16' if limit >= 16 else 'exception-escapes-store'),
+                        'std::bad_alloc came out of store() (thrown by nl_clear() -> primary.rehash(limit) inside the bad_alloc handler, before triggers.clear()): '
+                        'the counters and the trigger index are left pointing at deleted entries (limit %d, %s)' % (limit, where))
+            try:
+                ks, tr = [int(x) for x in a[1:].split('/')]
+            except ValueError:
+                return ('bad-output', 'malformed store token ' + a[:100])
+            if limit > 0 and ks > limit:
+                return ('limit-exceeded', 'cache reports %d keys with limit %d: %s' % (ks, limit, where))
+            klen, vlen, nt = int(f[1]), int(f[2]), int(f[3])
+            thi = int(f[4].split('-')[-1])
+            foot = klen + vlen + (nt + 1) * (2 * thi + 600) + 4096
+            if cleared and not hogged and foot < seg // 16 and (ks, tr) != (1, nt + 1):
+                return ('refill-refused', 'a store of about %d bytes into the EMPTY cache (after %s, no other tenant, %d KiB segment) left stats %d/%d, '
+                        'expected 1/%d: %s' % (foot, last_empty, kib, ks, tr, nt + 1, where))
+            cleared = False
+        elif st[0] == 'F':
+            if a == 'h0':
+                return ('readback-wrong-value', 'fetch returned other bytes than were stored: ' + where)
+            if a not in ('h1', 'm'):
+                return ('bad-output', 'unexpected fetch token ' + a[:100])
+        elif st[0] in 'DR':
+            cleared = False
+        elif st == 'C':
+            if a.startswith('c!'):
+                return (('clear-in-handler-throws-limit-ge-16' if limit >= 16 else 'exception-escapes-clear'),
+                        'std::bad_alloc came out of clear(): nothing was released (limit %d, %s)' % (limit, where))
+            if a != 'c0/0':
+                return ('not-empty-after-emptying', 'stats after clear(): ' + where)
+            clears = clears + 1 if cleared else 1
+            cleared = True
+            last_empty = 'clear() at step %d' % i
+        elif st == 'P':
+            if a == 'PX':
+                return ('readback-wrong-value', 'the probe value came back with other bytes: ' + where)
+            # (a limited cache re-allocates its two hash vectors in nl_clear() before the old ones are freed: after an exhaustion they may
+            # stay inside the largest page for good - bounded fragmentation, not a leak - so the large probe is judged for limit 0 only)
+            if a == 'P0' and cleared and not hogged and limit == 0:
+                return ('refill-refused', 'the cache is empty after %s and has the %d KiB segment for itself, but one value of %d%% of the segment '
+                        '(it fits the largest page of a fresh segment) is refused: the memory of removed entries was not released / '
+                        'can not coalesce (%s)' % (last_empty, kib, pct, where))
+            if a not in ('P0', 'P1'):
+                return ('bad-output', 'unexpected probe token ' + a[:100])
+            cleared = False
+        else:
+            return ('bad-output', 'unknown step ' + st[:40])
+    return None
+
+
+def oracle_inj(case, out):
+    """thread_shared cache, the k-th allocation of one store throws std::bad_alloc (k = 1..kmax): whatever the point of failure, the
+    indexes stay consistent, the key is not served afterwards, and clear() brings the heap footprint back to that of an empty cache"""
+    c = case.split()
+    limit, nt, kmax, npre = int(c[1]), int(c[5]), int(c[7]), int(c[8])
+    if out.startswith('<') or 'exception' in out or '<crash' in out:
+        return ('cache-crash', 'harness/child died or threw: ' + out[:300])
+    toks = out.split(' ')
+    if len(toks) != kmax:
+        return ('bad-output', 'answer has %d tokens for kmax=%d: %s' % (len(toks), kmax, out[:200]))
+    for k, a in enumerate(toks, 1):
+        f = a.split(':')
+        try:
+            fired, (ks, tr), fetched, delta, cons = int(f[0]), [int(x) for x in f[1].split('/')], f[2], int(f[3]), f[4]
+        except (ValueError, IndexError):
+            return ('bad-output', 'malformed token ' + a[:100])
+        where = 'allocation %d of the store fails in `%s`: answered %s' % (k, case, a)
+        if cons != 'ok':
+            return ('index-inconsistent', 'the four indexes / counters of the real cache object disagree after a failed store (%s): %s' % (cons[:100], where))
+        if delta != 0:
+            return ('memory-not-released', 'after the failed store and clear() the heap footprint of the cache differs by %d bytes from that of the empty cache: '
+                    'a block obtained during the store was neither kept in an index nor given back (%s)' % (delta, where))
+        if limit > 0 and ks > limit:
+            return ('limit-exceeded', where)
+        if fetched == 'h0':
+            return ('readback-wrong-value', where)
+        if fired:
+            if fetched != 'm':
+                return ('hit-of-absent-entry', 'the store threw inside but the key is served: ' + where)
+            if (ks, tr) not in ((0, 0), (npre, 2 * npre)):
+                return ('stats-wrong', 'after a failed store the cache must be empty (cleared) or hold the %d earlier entries (value copy failed): %s' % (npre, where))
+        else:
+            want = npre + 1
+            if (limit == 0 or want <= limit) and ((ks, tr) != (want, 2 * npre + nt + 1) or fetched != 'h1'):
+                return ('stats-wrong', 'no allocation failed but the store did not go through (expected %d/%d and a hit): %s' % (want, 2 * npre + nt + 1, where))
+    return None
+
+
+def oracle_injf(case, out):
+    """thread_shared cache holding A, B, C (stored in that order); the k-th allocation during fetch(A) throws"""
+    c = case.split()
+    kmax = int(c[5])
+    if out.startswith('<') or 'exception' in out or '<crash' in out:
+        return ('cache-crash', 'harness/child died or threw: ' + out[:300])
+    toks = out.split(' ')
+    for k, a in enumerate(toks, 1):
+        f = a.split(':')
+        if len(f) != 6:
+            return ('bad-output', 'malformed token ' + a[:100])
+        fired, threw, fetched, order, cons, delta = f[0] == '1', f[1] == '1', f[2], f[3], f[4], f[5]
+        where = 'allocation %d of fetch fails in `%s`: answered %s' % (k, case, a)
+        if cons != 'ok':
+            if fired and threw and 'lru-length' in cons and order == 'CB':
+                return ('fetch-recency-update-loses-entry-on-bad-alloc',
+                        'fetch does lru.erase(it); lru.push_front(p); when the push_front allocation throws, std::bad_alloc leaves fetch() with the entry '
+                        'gone from the recency list and its stored iterator dangling (recency list %s, flags %s): the entry can never be the LRU victim and '
+                        'the next delete_node() of it erases through the dangling iterator (%s)' % (order, cons, where))
+            return ('index-inconsistent', 'the indexes of the real cache object disagree after a failed fetch (%s): %s' % (cons[:100], where))
+        if fetched == 'h0':
+            return ('readback-wrong-value', where)
+        if order not in (('ACB', 'CBA') if threw else ('ACB',)):
+            return ('recency-order-wrong', 'recency list %s after fetch(A) on entries stored A, B, C: %s' % (order, where))
+        if not fired and fetched != 'h1':
+            return ('miss-of-held-entry', where)
+        if delta != '0':
+            return ('memory-not-released', 'heap footprint after clear() differs by %s bytes: %s' % (delta, where))
+    if len(toks) != kmax and not (toks and toks[-1].split(':')[4] != 'ok'):
+        return ('bad-output', 'answer has %d tokens for kmax=%d' % (len(toks), kmax))
+    return None
+
+
 def oracle(case, out):
     if case.startswith('seq '):
         return oracle_seq(case, out)
@@ -504,6 +909,12 @@ def oracle(case, out):
         return oracle_cyc(case, out)
     if case.startswith('bud '):
         return oracle_bud(case, out)
+    if case.startswith('exh '):
+        return oracle_exh(case, out)
+    if case.startswith('inj '):
+        return oracle_inj(case, out)
+    if case.startswith('injf '):
+        return oracle_injf(case, out)
     return ('bad-output', 'unknown case kind')
 
 
@@ -537,10 +948,13 @@ def exhaustive_cases(backend, limits, length, nkeys, deadlines):
 
 
 def random_seq(rng, limit, nkeys, ntrigs, length, vsz=None):
-    keys = [b'k%d' % i for i in range(nkeys)]
+    # a third of the sequences use names longer than the 15-byte small-string buffer (16, 17, 40 bytes): copying such a key
+    # into a freshly allocated index node allocates again
+    pad = rng.choice([b'', b'', b'_' * 14, b'_' * 15, b'_' * 38])
+    keys = [b'k%d' % i + pad for i in range(nkeys)]
     if rng.random() < 0.1:
         keys[0] = b''
-    trigs = [b't%d' % i for i in range(ntrigs)] + keys[:max(1, nkeys // 3)]
+    trigs = [b't%d' % i + pad for i in range(ntrigs)] + keys[:max(1, nkeys // 3)]
     now = T0
     ops = []
     pstore = rng.choice([0.35, 0.5, 0.65])
@@ -639,6 +1053,163 @@ def cyc_cases(rng, n, thorough):
     return cases
 
 
+def exh_natural(rng, kib, limit, tspec, cycles, pct=40):
+    """cycles of: one store whose trigger set is too large for the segment (bad_alloc lands somewhere inside the trigger-index
+    insertions), clear(), accounting, refill probe"""
+    steps = ['M']
+    for cy in range(cycles):
+        klen = rng.choice([3, 15, 16, 17, 24, 60, 200])
+        vlen = rng.choice([0, 10, 15, 16, 100, 3000])
+        nt = kib * 1024 // rng.choice([150, 100, 60])
+        r = rng.random()
+        if r < 0.25:
+            # some ordinary entries first: the exhausting store then runs with a populated cache
+            for j in range(rng.choice([1, 3, 6])):
+                steps.append('S:%d:%d:%d:%s:%d' % (rng.choice([8, 20, 40]), rng.choice([5, 200]), rng.choice([0, 2, 5]), tspec, 1000 * cy + j + 500))
+        steps.append('S:%d:%d:%d:%s:%d' % (klen, vlen, nt, tspec, cy))
+        steps += (['C', 'M', 'P'] if limit == 0 else ['C', 'M', 'C', 'P']) if rng.random() < 0.8 else ['C', 'M']
+        if rng.random() < 0.3:
+            steps += ['C', 'S:%d:%d:%d:%s:%d' % (20, 50, 3, '20-30', 7000 + cy), 'F:20:50:%d' % (7000 + cy), 'C', 'M']
+    steps += ['C', 'M', 'C', 'P']
+    return 'exh %d %d %d %d %s' % (kib, limit, T0, pct, ' '.join(steps))
+
+
+def exh_hog(rng, kib, limit, unit, stride, k0, k1, klen, vlen, nt, tspec, pct=40):
+    """budget sweep: a second tenant holds the whole segment except <keep> blocks; one store with a long key and long trigger
+    names then fails at a different allocation point for every budget (value copy, key copy, hash vector, primary node,
+    key copy INSIDE the node, lru node, timeout node, trigger name, trigger node, name copy inside the node, the two list nodes)"""
+    steps = ['M']
+    for n, keep in enumerate(range(k0, k1)):
+        steps.append('H%d:%d:%d' % (unit, keep, stride))
+        steps.append('S:%d:%d:%d:%s:%d' % (klen, vlen, nt, tspec, keep))
+        how = n % 4
+        if how == 0:
+            steps += ['U', 'C', 'M']
+        elif how == 1:
+            steps += ['C', 'U', 'M']
+        elif how == 2:
+            steps += ['F:%d:%d:%d' % (klen, vlen, keep), 'D:%d:%d' % (klen, keep), 'U', 'C', 'M']
+        else:
+            steps += ['U', 'R:%s:%d:%d' % (tspec, keep, 0), 'D:%d:%d' % (klen, keep), 'C', 'M', 'C', 'P']
+    steps += ['C', 'M', 'C', 'P']
+    return 'exh %d %d %d %d %s' % (kib, limit, T0, pct, ' '.join(steps))
+
+
+def exh_cases(rng, thorough):
+    cases = []
+    # refill contrast on an undisturbed cache (the oracle's own expectations must hold there)
+    cases.append('exh 512 0 %d 40 M S:20:5:2:20-20:1 M F:20:5:1 C M P C M S:40:100:6:16-90:2 F:40:100:2 D:40:2 C M P' % T0)
+    tspecs = ['16-16', '17-40', '16-200', '100-100', '24-24', '16-31', '33-300']
+    for kib in (512, 1024, 2048):
+        for tspec in (tspecs if thorough else rng.sample(tspecs, 4)):
+            cases.append(exh_natural(rng, kib, rng.choice([0, 0, 0, 3, 8]), tspec, 24 if thorough else 10))
+    sweeps = [(48, 1), (48, 2), (100, 1), (100, 2), (100, 3), (230, 1), (230, 2), (500, 2), (16, 1), (48, 3)]
+    for unit, stride in sweeps:
+        for kib in ((512, 1024, 2048) if thorough else (512, rng.choice([1024, 2048]))):
+            top = max(8, 3400 // (unit + 16)) if stride == 1 else 34
+            klen = rng.choice([16, 20, 40, 100])
+            nt = rng.choice([1, 2, 3])
+            tspec = rng.choice(['16-16', '20-20', '18-60', '100-100', '40-40'])
+            # limit 0: with a limit nl_clear() itself allocates (rehash(limit)) and, with a second tenant holding the segment, throws out of the
+            # bad_alloc handler of store() - see docs/C08.md "Observations"; a single cache can not get there
+            cases.append(exh_hog(rng, kib, 0, unit, stride, 0, top, klen, rng.choice([0, 15, 16, 40]), nt, tspec))
+    return cases
+
+
+def exhm_cases(rng, thorough):
+    """correspondence of the resource model (coq/C08/ResDefs.v over the buddy model) with the real cache + real allocator: the model
+    must predict, for every budget the second tenant leaves, at which allocation the store gives up (stats after the store) and the
+    exact page structure of the segment after the store, after giving the budget back and after clear().  Single-entry cycles and
+    stores into an almost empty cache (the order in which delete_node / nl_clear release several blocks is not modelled: states are
+    compared where the set of live blocks determines the page structure)."""
+    cases = ['exh consts']
+    sweeps = [(48, 1, 64), (48, 2, 40), (100, 1, 40), (100, 2, 40), (100, 3, 30), (230, 1, 24), (230, 2, 30), (16, 1, 80), (500, 1, 12), (40, 5, 40)]
+    for unit, stride, top in sweeps:
+        page = 1 << (((unit + 15) // 16 + 1) * 16 - 1).bit_length()
+        sizes = [k for k in (8, 16, 32, 64, 128, 256, 512) if k * 1024 // page <= 320] or [8]
+        for kib in (sizes if thorough else (sizes[0], sizes[-1])):
+            for rep in range(3 if thorough else 1):
+                klen = rng.choice([3, 15, 16, 17, 20, 40, 100])
+                vlen = rng.choice([0, 15, 16, 40, 300])
+                nt = rng.choice([0, 1, 2, 3, 5])
+                tspec = rng.choice(['3-3', '15-16', '16-16', '20-20', '18-60', '100-100', '40-40'])
+                steps = ['M']
+                for n, keep in enumerate(range(0, top)):
+                    steps += ['H%d:%d:%d' % (unit, keep, stride), 'S:%d:%d:%d:%s:%d' % (klen, vlen, nt, tspec, keep), 'M']
+                    steps += [['U', 'M', 'C', 'M'], ['C', 'M', 'U', 'M'], ['D:%d:%d' % (klen, keep), 'M', 'U', 'C', 'M'],
+                              ['U', 'C', 'S:%d:%d:%d:%s:%d' % (klen, vlen, nt, tspec, keep), 'M', 'C', 'M']][n % 4]
+                cases.append('exh %d 0 %d 40 %s' % (kib, T0, ' '.join(steps)))
+    # oversized trigger sets on small segments (no second tenant), a few ordinary entries around them
+    for kib in ((8, 16, 32, 64, 128) if thorough else (8, 16, 64)):
+        for tspec in ('16-16', '17-40', '3-30', '100-100'):
+            steps = ['M']
+            for cy in range(12 if thorough else 6):
+                pre = rng.choice([0, 0, 1, 2])
+                for j in range(pre):
+                    steps += ['S:%d:%d:%d:%s:%d' % (rng.choice([8, 20, 40]), rng.choice([5, 200]), rng.choice([0, 2, 5]), tspec, 1000 * cy + j + 500), 'M']
+                steps += ['S:%d:%d:%d:%s:%d' % (rng.choice([3, 16, 24, 60]), rng.choice([0, 16, 100]), kib * 1024 // rng.choice([150, 100, 60]), tspec, cy), 'M', 'C', 'M']
+            cases.append('exh %d 0 %d 40 %s' % (kib, T0, ' '.join(steps)))
+    return cases
+
+
+def inj_cases(rng, thorough):
+    """(cases compared with the resource model: limit 0), (oracle only: limit > 0)"""
+    with_model, alone = [], []
+    fixed = [(20, 30, 2, '20-20', 0), (16, 16, 0, '16-16', 0), (3, 0, 3, '3-3', 0), (15, 15, 2, '15-16', 2), (40, 100, 4, '16-60', 3), (100, 0, 1, '100-100', 1)]
+    more = [(rng.choice([1, 15, 16, 17, 31, 64]), rng.choice([0, 1, 15, 16, 17, 500]), rng.choice([0, 1, 2, 5, 8]),
+             rng.choice(['3-3', '15-15', '16-16', '10-20', '16-100']), rng.choice([0, 0, 1, 4])) for _ in range(40 if thorough else 10)]
+    for klen, vlen, nt, tspec, npre in fixed + more:
+        kmax = 12 + 8 * (nt + 1)        # more than the store can allocate: the last rounds run without a failure
+        with_model.append('inj 0 %d %d %d %d %s %d %d' % (T0, klen, vlen, nt, tspec, kmax, npre))
+        lim = rng.choice([1, 2, 5, 8])
+        alone.append('inj %d %d %d %d %d %s %d %d' % (lim, T0, klen, vlen, nt, tspec, kmax, min(npre, lim - 1)))
+    return with_model, alone
+
+
+def exhl_cases(rng, thorough):
+    """limits 1..8 (the quantifier of the property) against the resource model: nl_clear() re-creates the bucket vectors with `limit`
+    buckets before the trigger index is released.  Where the new vectors land depends on the order in which nl_clear released the blocks
+    (not modelled), so only the order-insensitive part of every answer is compared: stats and the bytes in in-use pages."""
+    cases = []
+    for kib in ((8, 16, 32, 64, 128) if thorough else (8, 32, 64)):
+        for lim in ((1, 2, 3, 4, 5, 6, 7, 8) if thorough else rng.sample([1, 2, 3, 4, 5, 6, 7, 8], 3)):
+            tspec = rng.choice(['16-16', '17-40', '3-30', '100-100'])
+            steps = ['M']
+            for cy in range(10 if thorough else 5):
+                steps += ['S:%d:%d:%d:%s:%d' % (rng.choice([8, 20, 40]), rng.choice([5, 200]), rng.choice([0, 2, 5]), tspec, 1000 * cy + 500), 'M']
+                if rng.random() < 0.5:
+                    steps += ['D:%d:%d' % (rng.choice([8, 20, 40]), 1000 * cy + 500), 'M']
+                steps += ['S:%d:%d:%d:%s:%d' % (rng.choice([3, 16, 24, 60]), rng.choice([0, 16, 100]), kib * 1024 // rng.choice([150, 100, 60]), tspec, cy), 'M', 'C', 'M']
+            cases.append('exh %d %d %d 40 %s' % (kib, lim, T0, ' '.join(steps)))
+    # entries that SHARE trigger names (same id, different key length): removing one must keep the trigger nodes, removing the last one of a
+    # trigger releases its node; rise of a shared trigger removes both
+    for kib in (16, 64):
+        for lim in (0, 2, 8):
+            steps = ['M']
+            for cy in range(8 if thorough else 4):
+                nt = rng.choice([1, 3, 5])
+                tspec = rng.choice(['16-16', '3-3', '20-40'])
+                a, b = rng.sample([8, 17, 24, 40], 2)
+                steps += ['S:%d:5:%d:%s:%d' % (a, nt, tspec, cy), 'M', 'S:%d:30:%d:%s:%d' % (b, nt, tspec, cy), 'M']
+                how = cy % 3
+                if how == 0:
+                    steps += ['D:%d:%d' % (a, cy), 'M', 'D:%d:%d' % (b, cy), 'M']
+                elif how == 1:
+                    steps += ['D:%d:%d' % (b, cy), 'M', 'R:%s:%d:0' % (tspec, cy), 'M']
+                else:
+                    steps += ['R:%s:%d:%d' % (tspec, cy, nt - 1), 'M']
+                if rng.random() < 0.5:
+                    steps += ['C', 'M']
+            steps += ['C', 'M']
+            cases.append('exh %d %d %d 40 %s' % (kib, lim, T0, ' '.join(steps)))
+    return cases
+
+
+def coarse(line):
+    """M:<k>/<t>:<used>:... -> M:<k>/<t>:<used>"""
+    return ' '.join(':'.join(t.split(':')[:3]) if t.startswith('M:') else t for t in line.split(' '))
+
+
 def bud_sizes(rng, usable):
     edge = []
     for k in range(5, max(6, usable.bit_length() + 1)):
@@ -707,12 +1278,12 @@ def gen_cases(ctx):
     seqs += aimed_cases(['t', 'p512'])
     if ctx.quick():
         seqs += exhaustive_cases('t', [1, 2], 4, 3, [T0, T0 + 1, T0 + 5])
-        seqs += exhaustive_cases('t', [1, 2], 5, 2, [T0 + 1, T0 + 5])
+        seqs += exhaustive_cases('t', [2], 5, 2, [T0 + 1, T0 + 5])
     else:
         seqs += exhaustive_cases('t', [1, 2, 3], 5, 3, [T0, T0 + 1, T0 + 5])
         seqs += exhaustive_cases('t', [2, 3], 6, 3, [T0 + 1, T0 + 5])
         seqs += exhaustive_cases('p512', [1, 2], 3, 3, [T0, T0 + 5])
-    for _ in range(ctx.scale(2500, 30000)):
+    for _ in range(ctx.scale(2500, 24000)):
         lim = rng.choice([1, 2, 3, 4, 5, 6, 7, 8])
         nk = lim + rng.choice([1, 1, 2, 3, 5, 10])
         be = 't' if rng.random() < 0.85 else rng.choice(['p512', 'p1024', 'p4096'])
@@ -753,6 +1324,13 @@ def nontrivial(case, out):
         return False
     if c[0] == 'cyc':
         return True
+    if c[0] == 'injf':
+        return out.startswith('1:')
+    if c[0] == 'inj':
+        return out.startswith('1:') and ' 0:' in out
+    if c[0] == 'exh':
+        # at least one store that the allocator refused part-way (dropped or cleared) and one accounting read-out
+        return ' s0/0' in out and ' M:' in out
     if c[0] == 'bud':
         return ':' in out and any(t and t[0].isdigit() for t in out.split(' ')[:-3])
     return False
@@ -769,6 +1347,14 @@ def classify(case, out):
         return 'seq:%s:%s:%s' % (be, lb, nb)
     if c[0] == 'cyc':
         return 'cyc:%s:%s' % ('thread' if c[1] == 't' else 'process', c[-1].split()[-1])
+    if case == 'exh consts':
+        return 'exh:consts'
+    if c[0] == 'inj':
+        return 'inj:thread:limit%s' % ('0' if c[1] == '0' else '>0')
+    if c[0] == 'injf':
+        return 'inj:thread:fetch'
+    if c[0] == 'exh':
+        return 'exh:%s:limit%s' % ('second-tenant-budget-sweep' if ' H' in case else 'oversized-trigger-set', '0' if c[2] == '0' else '>0')
     if c[0] == 'bud':
         n = len(case.split()) - 2
         return 'bud:%s' % ('len<=6' if n <= 6 else 'len7-40' if n <= 40 else 'len>40')
@@ -788,23 +1374,41 @@ def run(ctx):
     errs = vlib.gen_coq(GEN)
     for n, e in errs:
         ctx.broke('translator cxx2v failed on %s (tie to source broken)' % n, e)
+    parts = gen_shape()
+    for n, b in parts.items():
+        if b is None:
+            ctx.broke('tie to source broken: basic_map::%s not found in private/hash_map.h in the expected form' % n[2:])
     res = vlib.coq_props('C08')
     ctx.proof(res)
     ctx.coverage['trusted_base'] = [
-        'Coq 8.16.1 kernel (vm_compute only in the non-vacuity Examples)',
-        'hand-written models: coq/C07/Defs.v (mem_cache, shared with C07) and coq/C08/Defs.v (buddy_allocator); no function of the anchored '
-        'files is in the loop-free integer fragment of cxx2v, the allocator constants are compared with the real ones at run time',
+        'Coq 8.16.1 kernel (vm_compute only in the non-vacuity Examples and in unprotected_allocate_orphans_the_node)',
+        'hand-written models: coq/C07/Defs.v (mem_cache, shared with C07), coq/C08/Defs.v (buddy_allocator), coq/C08/ResDefs.v (the containers of the '
+        'process_shared cache as tagged blocks over the allocator model); whole functions of the anchored files are outside the fragment of cxx2v, their '
+        'integer guards and size formulas are cut out textually into a TU (checks/C08.py _guards_tu), translated by tools/cxx2v.py (clang 14 AST) and '
+        'proved equal to the model leafs (coq/C08/LinkGuards.v); the allocator constants (`bud consts`) and the object / node sizes (`exh consts`) are '
+        'compared with the real ones at run time',
+        'checks/C08.py gen_shape: lexical extraction (comments stripped, white space removed, fixed table of statement texts) of basic_map::allocate(v), '
+        'allocate(), destroy, the destroy calls of erase / clear, the two catch blocks of mem_cache::store and the statement set of nl_clear into '
+        'coq/gen/Gen_C08_hashmap.v; coq/C08/Link.v proves they are the shapes the resource model assumes',
         'extraction: ExtrOcamlBasic only, OCaml 4.13.1',
-        'harness/C08_cache.cpp (includes src/cache_storage.cpp of the tree under test, -fno-access-control, interposed time() and operator new, '
-        'fork per process_shared case), harness/C08_buddy.cpp, ocaml/C08_driver.ml, checks/C08.py (generators, history-interpreter oracle)',
-        'hash_map / std::multimap / std::list / std::set behave as finite map / stable sorted multimap / list / set']
+        'harness/C08_cache.cpp (includes src/cache_storage.cpp of the tree under test, -fno-access-control, interposed time() and operator new with '
+        'failure injection, fork per process_shared case, reads the real page headers and free lists of the shared segment), harness/C08_buddy.cpp, '
+        'ocaml/C08_driver.ml (incl. the check_limits eviction loop and the table compaction of the functional maps), checks/C08.py (generators, oracles)',
+        'hash_map / std::multimap / std::list / std::set behave as finite map / stable sorted multimap / list / set; libstdc++ LP64 layout (string SSO 15)']
     ctx.assumptions = ['single-threaded use (locks not modelled; C09 covers concurrency)',
                        'for cache correspondence: no allocation failure and not_enough_memory() false (values <= 100 bytes); sequences with memory '
                        'pressure are judged by the property oracle only',
+                       'resource-model theorems: ms - sizeof(buddy_allocator) < 2^63; RI r0 (the initial in-use pages are the recorded blocks plus the other '
+                       'tenants; RI_init: true for the fresh segment); limit 0 for the two restore-after-clear theorems (for limits >= 16 clear() can throw: '
+                       'limited_cache_clear_throws_refuted, finding 1); the catch block of basic_map::allocate is present (Link.link_allocate_protected, '
+                       're-derived from the source on every run)',
+                       'exh budget sweeps hold the segment with blocks of a second tenant (process_settings::process_memory is shared by every cache of the '
+                       'process); sweeps use limit 0 because of finding 1 (docs/C08.md)',
                        'counters do not wrap (uint64 generation, size_t size); buddy requests are >= 1 byte and < 2^63 '
                        '(malloc(0) corrupts the allocator but no container of the cache ever asks for 0 bytes, see docs/C08.md)',
                        'time() is the only clock the cache reads (checked by the harness self-test on every run)',
-                       'LP64: sizeof(buddy_allocator)=544, alignment 16 (compared with the real values on every run)']
+                       'LP64: sizeof(buddy_allocator)=544, alignment 16, sizeof(mem_cache<process_settings>)=232, index nodes 136/80/24/32/48 bytes '
+                       '(compared with the real values on every run)']
     exe, err = vlib.build_harness('C08_cache', ['C08_cache.cpp'], extra=['-fno-access-control'])
     if not exe:
         ctx.broke('cache harness build failed', err)
@@ -822,13 +1426,22 @@ def run(ctx):
         press = [c for c in cases if c.startswith('seq P')]
         cycs = [c for c in cases if c.startswith('cyc ')]
         buds = [c for c in cases if c.startswith('bud ')]
+        exhs = [c for c in cases if c.startswith('exh ')]
+        exhm = []
+        exhl = []
+        injm, inja = [], [c for c in cases if c.startswith('inj ') or c.startswith('injf ')]
     else:
         corpus = vlib.corpus_cases('C08')
         seqs, press = gen_cases(ctx)
         seqs = [c for c in corpus if c.startswith('seq ') and not c.startswith('seq P')] + seqs
         press = [c for c in corpus if c.startswith('seq P')] + press
         cycs = [c for c in corpus if c.startswith('cyc ')] + cyc_cases(ctx.rng, ctx.scale(40, 300), not ctx.quick())
-        buds = [c for c in corpus if c.startswith('bud ')] + bud_cases(ctx.rng, ctx.scale(2500, 40000), ctx.quick())
+        buds = [c for c in corpus if c.startswith('bud ')] + bud_cases(ctx.rng, ctx.scale(2000, 30000), ctx.quick())
+        exhs = [c for c in corpus if c.startswith('exh ')] + exh_cases(ctx.rng, not ctx.quick())
+        exhm = exhm_cases(ctx.rng, not ctx.quick())
+        exhl = exhl_cases(ctx.rng, not ctx.quick())
+        injm, inja = inj_cases(ctx.rng, not ctx.quick())
+        inja = [c for c in corpus if c.startswith('inj ') or c.startswith('injf ')] + inja
     ctx.coverage['rule'] = (
         'seq: back end (thread_shared / process_shared 512 KiB-4 MiB), limit 1..8 (plus 0/large for contrast), a sequence of store/fetch/rise/'
         'remove/clear/clock-set over a key alphabet of limit+1..limit+10 keys; the answer lists every fetch result, stats() and the private recency '
@@ -838,11 +1451,18 @@ def run(ctx):
         'Random (seeded): up to 200 ops, three deadline regimes. Pressure: values up to segment/3 on process_shared (oracle only). '
         'cyc: fill/read back/empty cycles (clear, rise, remove, mixed) x value sizes 0..segment, limits 0..8 with used-memory accounting. '
         'bud: malloc/free/free-all sequences on the real buddy_allocator over arenas of 544..10 MiB bytes: exhaustive length-5 (6) sequences over a 7-op alphabet on two '
-        'tiny arenas, fill-exhaust/free-all/refill, random with sizes at 2^k-17..2^k-15. Non-trivial = seq with an eviction-capable store and a hit / '
+        'tiny arenas, fill-exhaust/free-all/refill, random with sizes at 2^k-17..2^k-15. '
+        'exh (process_shared, real segment accounting after every cycle): stores whose trigger set (names of 16..300 bytes) is larger than the segment '
+        '(512 KiB, 1 MiB, 2 MiB; bad_alloc lands somewhere inside the trigger-index insertions), clear(), accounting against the fresh segment, probe of '
+        '40 % of the segment; budget sweeps: a second tenant holds the segment except 0..N blocks of 32..512 bytes (contiguous or every 2nd/3rd/5th), one '
+        'store with long key and trigger names, so that every allocation of store is the failing one for some budget; the same on 8..512 KiB segments '
+        'compared step by step with the extracted resource model. inj (thread_shared): the k-th operator new of one store throws, k = 1..beyond the '
+        'last allocation, with 0..4 earlier entries, limit 0 compared with the model, limits 1..8 oracle only. Non-trivial = seq with an eviction-capable store and a hit / '
         'bud with a successful malloc; distinct = distinct case lines.')
     ctx.coverage['exhaustive'] = False
     ctx.coverage['exhaustive_parts'] = ['cache: all op sequences of length 4 (quick) / 5 (thorough) over the 13-op alphabet starting with a store x limits {1,2}(,3)',
-                                        'buddy: all op sequences of length 5 (quick) / 5-6 (thorough) over the 7-op alphabet starting with a malloc, arenas of 256 and 361 usable bytes']
+                                        'buddy: all op sequences of length 5 (quick) / 5-6 (thorough) over the 7-op alphabet starting with a malloc, arenas of 256 and 361 usable bytes',
+                                        'failure points of one store: every k = 1..kmax (kmax beyond the last allocation) by injection on the thread cache; every budget 0..N of a second tenant on the process cache']
     if seqs:
         vlib.differential(ctx, seqs, exe, mexe, oracle, nontrivial, classify, canon_case=strip_mem, canon_model=lambda b: b,
                           what='correspondence cache model vs mem_cache')
@@ -850,5 +1470,18 @@ def run(ctx):
         vlib.differential(ctx, press, exe, None, oracle, nontrivial, classify, what='pressure sequences (oracle only)')
     if cycs:
         vlib.differential(ctx, cycs, exe, None, oracle, nontrivial, classify, what='fill/empty cycles (oracle only)', jobs=8)
+    if exhm and mexe:
+        vlib.differential(ctx, exhm, exe, mexe, oracle, nontrivial, classify,
+                          what='correspondence resource model (cache over buddy allocator) vs process_shared mem_cache: failure points and page structure')
+    if exhl and mexe:
+        vlib.differential(ctx, exhl, exe, mexe, oracle, nontrivial, classify, canon_case=lambda c, a: coarse(a), canon_model=coarse,
+                          what='correspondence resource model vs process_shared mem_cache, limits 1..8 (stats and bytes in in-use pages)')
+    if injm and mexe:
+        vlib.differential(ctx, injm, exe, mexe, oracle, nontrivial, classify,
+                          what='correspondence resource model vs thread_shared mem_cache under failure injection: which allocation of a store is the k-th')
+    if inja:
+        vlib.differential(ctx, inja, exe, None, oracle, nontrivial, classify, what='failure injection, limited caches (oracle only)')
+    if exhs:
+        vlib.differential(ctx, exhs, exe, None, oracle, nontrivial, classify, what='allocator exhaustion inside insertions (oracle only)', jobs=8)
     if buds:
         vlib.differential(ctx, buds, bexe, mexe, oracle, nontrivial, classify, what='correspondence allocator model vs buddy_allocator')
